@@ -83,6 +83,12 @@ func c17Run(c *harness.Check, cs respCase) string {
 		body := w.Body.String()
 		if ferr == nil {
 			if cs.Fails {
+				// the run-time fault did not fail the render: whatever else that
+				// violates, the body must not carry the error text or a file path
+				if strings.Contains(body, "Textwire ERROR") || strings.Contains(body, root) {
+					failure = fmt.Sprintf("the page's fault did not fail the render and the body carries error details / a path: %q", clip(body, 400))
+					return
+				}
 				failure = "harness: the page was built to fail but renders"
 				return
 			}
